@@ -679,12 +679,17 @@ func (e *env) recoverWindow(max time.Duration) bool {
 
 func oneCase(c *h.Case) {
 	rng := c.Rng
-	nIdle, nClose, nRepl, nBack, nFetch := 2, 4, 6, 6, 7
+	nIdle, nClose, nRepl, nBack, nFetch := 4, 4, 6, 6, 7
 	if run.Thorough() {
-		nIdle, nClose, nRepl, nBack, nFetch = 8, 24, 60, 60, 50
+		nIdle, nClose, nRepl, nBack, nFetch = 16, 24, 60, 60, 50
 	}
+	// the long schedules come first so that they overlap with everything else: idle expiry and reply streams
 	if c.Idx < nIdle {
-		idleCase(c)
+		if c.Idx%4 >= 2 {
+			streamCase(c)
+		} else {
+			idleCase(c)
+		}
 		return
 	}
 	if c.Idx < nIdle+nClose {
@@ -890,7 +895,7 @@ func idleCase(c *h.Case) {
 	variants := []string{"reply-straddles-expiry", "return-after-expiry"}
 	variant := variants[c.Idx%2]
 	kind := "udp"
-	if c.Idx >= 2 && c.Idx%4 >= 2 {
+	if (c.Idx/4)%2 == 1 {
 		kind = "sudp"
 	}
 	w := pickWorld(rng, false)
@@ -1485,4 +1490,109 @@ func refuseCase(c *h.Case) {
 	e.tally("refuse")
 	run.Count("cases_failed_fetch", 1)
 	run.Distinct(fmt.Sprintf("fetch|relay|%v|%d|%s", specs, nu, sig.sig()))
+}
+
+// streamCase: one request answered by a stream of replies that outlasts the 30 s expiry of the per-user local socket.
+func streamCase(c *h.Case) {
+	rng := c.Rng
+	kind := []string{"udp", "sudp"}[(c.Idx/4+c.Idx)%2]
+	w := pickWorld(rng, false)
+	e := newEnv(c, w)
+	defer e.close()
+	spec := randSpec(rng, kind)
+	const gap = 500 * time.Millisecond
+	k := 73 + rng.Intn(4) // last reply 36-37.5 s after the request
+	c.Data["kind"], c.Data["tunnels"], c.Data["replies"], c.Data["gap_ms"] = "reply-stream-"+kind, []tunSpec{spec}, k, gap.Milliseconds()
+	c.Data["world"] = map[string]any{"udpPacketSize": w.Size, "tcpMux": w.Mux}
+	if err := e.build([]tunSpec{spec}, false); err != nil {
+		run.Inconclusive("setup: " + trimErr(err))
+		return
+	}
+	if err := e.addUsers([]int{2}); err != nil || !e.first() {
+		return
+	}
+	listener, chatty := e.users[0], e.users[1]
+	stop := make(chan struct{})
+	var wg sync.WaitGroup
+	wg.Add(1)
+	go func() { // another user address keeps exchanging meanwhile
+		defer wg.Done()
+		for {
+			if !chatty.exchange(exSpec{L: 100, RepL: []int{100}}, exWait, true) {
+				return
+			}
+			run.Count("light_exchanges", 1)
+			select {
+			case <-stop:
+				return
+			case <-time.After(2 * time.Second):
+			}
+		}
+	}()
+	defer func() { close(stop); wg.Wait() }()
+
+	sp := exSpec{L: 80, Gap: gap, Class: rng.Intn(4), RClass: rng.Intn(4)}
+	for j := 0; j < k; j++ {
+		l := hdrLen + rng.Intn(400)
+		if rng.Intn(8) == 0 {
+			l = pickLen(rng, w.Size, false)
+		}
+		sp.RepL = append(sp.RepL, l)
+	}
+	listener.mu.Lock()
+	seq := listener.seq + 1
+	listener.mu.Unlock()
+	id := dgID{Tun: 0, User: listener.Idx, Seq: seq}
+	ok := listener.exchange(sp, exWait, false)
+	run.Count("reply_streams", 1)
+	cs := e.cs
+	cs.mu.Lock()
+	stopped := cs.stopped
+	plan := cs.plans[id]
+	var missing, late []int
+	var lastGotBefore int64
+	if plan != nil {
+		t0 := cs.seenAt[id]
+		for j := range plan.Payloads {
+			rid := id
+			rid.J = j + 1
+			if cs.repSent[rid] > 0 && cs.repGot[rid] == 0 {
+				missing = append(missing, j+1)
+				if plan.SentAt[j]-t0 > int64(30*time.Second) {
+					late = append(late, j+1)
+				}
+			} else if cs.repGot[rid] > 0 {
+				lastGotBefore = (plan.SentAt[j] - t0) / 1e6
+			}
+		}
+	}
+	arrived := cs.seen[id] > 0
+	cs.mu.Unlock()
+	c.Ev("stream-end", "complete", ok, "request_arrived", arrived, "missing", missing)
+	if stopped {
+		return
+	}
+	if !ok {
+		switch {
+		case !arrived:
+			c.Violation("light-load-datagram-lost", "the request %v of the reply-stream schedule never reached the backend (%s)", id, e.cs.tunnels[0].describe())
+		case len(missing) > 0 && len(late) == len(missing):
+			c.Violation("streamed-reply-lost-after-30s-without-request",
+				"one request of user %d (%s), then the backend sent %d replies %v apart to it while the user sent nothing and another user kept exchanging: the %d replies sent more than 30 s after the request (numbers %d..%d) never arrived within %v, every earlier reply did (last delivered reply was sent %d ms after the request) (%s)",
+				listener.Idx, listener.conn.LocalAddr(), k, gap, len(missing), missing[0], missing[len(missing)-1], exWait, lastGotBefore, e.cs.tunnels[0].describe())
+		default:
+			c.Violation("streamed-reply-lost", "reply stream (%d replies %v apart, light load) to user %d: replies %v never arrived within %v (%s)", k, gap, listener.Idx, missing, exWait, e.cs.tunnels[0].describe())
+		}
+		return
+	}
+	run.Count("streamed_replies_delivered_after_30s", int64(k-60))
+	// afterwards the same user address is still served
+	if !listener.exchange(exSpec{L: 64, RepL: []int{w.Size}}, exWait, true) {
+		return
+	}
+	e.tally("stream")
+	run.Distinct(fmt.Sprintf("stream|%s|%d|%v|%v|%d", kind, w.Size, w.Mux, spec, k))
+	if c.Idx%4 == 2 {
+		run.Sample(map[string]any{"case": c.Idx, "kind": "reply-stream-" + kind, "world": c.Data["world"], "tunnel": spec, "replies": k, "gap_ms": gap.Milliseconds()})
+	}
 }
